@@ -279,7 +279,8 @@ def impl_canon(tokens):
         n, err = int(tokens[1]), int(tokens[2])
         if err: return "E %d" % err
         if "OVERRUN" in tokens: return "OVERRUN"
-        return ("D " + " ".join(tokens[3:3 + n])).strip()
+        # IEEE -0 (0 * negative in a FLOAT64 MULTIPLY) is the value 0
+        return ("D " + " ".join("0" if t == "-0" else t for t in tokens[3:3 + n])).strip()
     if k in "st":
         r, err = int(tokens[1]), int(tokens[2])
         return "E %d" % err if err else "P %d" % r
